@@ -394,9 +394,22 @@ next:;
         lp_.row[S + 1] = +0.0;
     }
 
+    // Whether a witness exists, and where, does not change when all hyperplanes
+    // are multiplied by the same positive factor. lp_solve becomes unreliable
+    // (spurious INFEASIBLE/UNBOUNDED, cycling) with coefficients around 2^20, so
+    // we bring them to order one with an exact power of two. Magnitudes lp_solve
+    // handles well (below 2^16) are left alone, so that nothing changes there.
+    static double witnessScale(const Hyperplane & v) {
+        const double m = v.size() ? v.cwiseAbs().maxCoeff() : 0.0;
+        if (!(m > 0.0) || !std::isfinite(m)) return 1.0;
+        const int e = std::ilogb(m);
+        return std::abs(e) > 16 ? std::ldexp(1.0, -e) : 1.0;
+    }
+
     void WitnessLP::addOptimalRow(const Hyperplane & v) {
+        if (scale_ == 0.0) scale_ = witnessScale(v);
         for ( size_t i = 0; i < S; ++i )
-            lp_.row[i] = v[i];
+            lp_.row[i] = v[i] * scale_;
         // Temporarily set the delta constraint
         lp_.row[S+1] = +1.0;
         lp_.pushRow(LP::Constraint::LessEqual, 0.0);
@@ -406,8 +419,9 @@ next:;
 
     std::optional<Point> WitnessLP::findWitness(const Hyperplane & v) {
         // Add witness constraint
+        const double scale = scale_ != 0.0 ? scale_ : witnessScale(v);
         for ( size_t i = 0; i < S; ++i )
-            lp_.row[i] = v[i];
+            lp_.row[i] = v[i] * scale;
         lp_.pushRow(LP::Constraint::Equal, 0.0);
 
         double deltaValue;
@@ -427,6 +441,7 @@ next:;
     }
 
     void WitnessLP::reset() {
+        scale_ = 0.0;
         lp_.resize(1);
     }
 
